@@ -51,7 +51,7 @@ class CaseResult:
         self.candidates.append(dict(clause=clause, domain=domain, inputs=inputs, note=note, exact=exact))
 
     def to_dict(self):
-        return self.__dict__
+        return {k: v for k, v in self.__dict__.items() if not k.startswith("_")}
 
 
 # ---------------------------------------------------------------------------------------------- function coverage
